@@ -126,7 +126,7 @@ class D(Driver):
         ]
         for nd in rounds:
             calls.append(lambda p, nd=nd: p.round_floats(nd))
-        for f in calls:
+        for ci, f in enumerate(calls):
             res["evals"] += 1
             try:
                 f(P(d=d))
@@ -136,6 +136,11 @@ class D(Driver):
                 if events.is_harness_exc(e):
                     raise
                 bump(res["counters"], "exception:" + type(e).__name__)
+                # grammar-valid path data: a rewrite may refuse it (ValueError) but a crash is no rewrite at all
+                name = ("absolute", "absolute_moveto", "relative", "explicit_lines", "expand_shorthand", "arcs_to_cubics", "move", "subpaths", "as_cmd_seq",
+                        "absolute.relative.absolute", "round_floats", "round_floats")[min(ci, 11)]
+                res["viol"].append(dict(rule="rewrite_crashes", sig=f"rewrite_crashes:{name}:{type(e).__name__}",
+                                        msg=f"{name} on grammar-valid d={d!r} raised {type(e).__name__}: {e}", replay={"kind": "path", "d": d, "method": name}))
         # remove_empty_subpaths goes through Skia (might_paint); keep it last
         res["evals"] += 1
         try:
